@@ -247,3 +247,23 @@ pub fn vx_emit_sector_activated(rt: &mut Rt, sector: SectorNumber, unsealed_cid:
 pub fn vx_emit_sector_updated(rt: &mut Rt, sector: SectorNumber, unsealed_cid: Option<Cid>, pieces: &Vec<(Cid, u64)>) -> (r: Result<(), ActorError>)
     ensures r.is_ok() ==> *final(rt) == (Rt { events: Ghost(old(rt).events@ + 1), ..*old(rt) }), r.is_err() ==> *final(rt) == *old(rt)
 { unimplemented!() }
+
+// =====================================================================================================================================================
+// 5. assign_sectors_to_deadlines (state.rs): the loop that adds the new sectors to their deadlines
+// =====================================================================================================================================================
+/// `deadline_vec[deadline_idx].as_mut().unwrap()`: the deadline in that slot (PANICS when the slot is empty or out of range)
+#[verifier::external_body]
+pub fn vx_deadline_mut(v: &mut Vec<Option<Deadline>>, i: usize) -> (r: &mut Deadline)
+    requires i < old(v)@.len(), old(v)@[i as int].is_some()
+    ensures final(v)@.len() == old(v)@.len(), final(v)@[i as int].is_some(), forall|j: int| 0 <= j < old(v)@.len() && j != i ==> final(v)@[j] == old(v)@[j]
+{ v[i].as_mut().unwrap() }
+impl Deadline {
+    /// deadline_state.rs Deadline::add_sectors (under contract in units/C04/miner_deadline_state.vx.rs: sectors added with proven == false raise live and
+    /// unproven power by the same amount, so ACTIVE power — what a PoSt-covered sector contributes — is unchanged). MONITOR, not an assumption: the
+    /// precondition `!proven` restricts the callers in this unit — Verus must prove that the activation path passes `proven == false` at every call.
+    #[verifier::external_body]
+    pub fn add_sectors<BS: Blockstore>(&mut self, store: &BS, partition_size: u64, proven: bool, new_fees: bool, sectors: &Vec<SectorOnChainInfo>, sector_size: SectorSize,
+            quant: QuantSpec) -> (r: anyhow::Result<PowerPair>)
+        requires !proven
+    { unimplemented!() }
+}
